@@ -51,8 +51,20 @@ func gen(seed int64) Scenario {
 	if r.Intn(3) == 0 {
 		staleAt = r.Intn(n)
 	}
+	renewAt := -1
+	if r.Intn(3) == 0 {
+		renewAt = r.Intn(n)
+	}
 	for i := 0; i < n; i++ {
 		m := 1 + r.Intn(2)
+		if i == renewAt && live[1] {
+			// a renew goes out, and while it is in flight (answer 2 ms away) the final decision is made; twice, at two
+			// different points of the window, then everything is flushed and the member polls again
+			sc.Steps = append(sc.Steps, Step{Op: "poll", M: 1, N: 3},
+				Step{Op: "renewthen", M: 1, Kind: 1 + r.Intn(3), Pick: 0, Ms: []int{300, 600, 900, 1200, 1500, 1800}[r.Intn(6)]}, Step{Op: "flush", M: 1},
+				Step{Op: "renewthen", M: 1, Kind: 1 + r.Intn(3), Pick: 1, Ms: []int{300, 600, 900, 1200, 1500, 1800}[r.Intn(6)]}, Step{Op: "flush", M: 1},
+				Step{Op: "sleep", Ms: 100}, Step{Op: "poll", M: 1, N: 2})
+		}
 		if i == staleAt && live[1] {
 			// records held unacknowledged across a leader move (or session reset) are acknowledged afterwards: those
 			// acknowledgements are stale; a fresh record polled and acknowledged after that must still be flushed properly
